@@ -277,9 +277,12 @@ func (r *Run) jobSignal(j *JobRec, sig syscall.Signal) {
 		return
 	}
 	if !j.Monitor || sig == syscall.SIGKILL {
-		// a directly exec'ed stage has no handler: it dies.
-		j.Outcome = "killed"
-		j.EndSeq = vos.NextSeq()
+		// a directly exec'ed stage has no handler: it dies.  (A job which had already
+		// recorded its completion keeps that outcome: the record is on disk.)
+		if j.Outcome != "complete" {
+			j.Outcome = "killed"
+			j.EndSeq = vos.NextSeq()
+		}
 		vproc.Finish(j.proc, -1, sig)
 		return
 	}
@@ -359,7 +362,7 @@ func (r *Run) jobMain(j *JobRec) int {
 	}
 	md.UpdateJournal(core.LogFile)
 	j.check()
-	if j.Monitor && !stale && fault != "hang" {
+	if j.Monitor && !stale && fault != "hang-silent" {
 		r.startHeartbeat(j, md)
 	}
 
@@ -534,7 +537,7 @@ func (r *Run) jobMain(j *JobRec) int {
 		}
 	}
 
-	if fault == "hang" {
+	if fault == "hang-silent" {
 		// the job hangs without a sign of life (no heartbeat, no error) for five hours,
 		// then its process exits without a word
 		r.Faults["job-hangs-silently"]++
